@@ -429,7 +429,17 @@ def storeLine (st : StoreRun) (lineNo : Nat) (line : String) : Except String (St
       | _, _ => .error s!"line {lineNo}: bad failupd"
     | "close" =>
       let want := if s.hasCache then showDoc (docOf s.m) else "-"
+      -- what the cache holds once the store is closed: the document written at shutdown, or - if
+      -- none was written - the one written last.  Its access times must be the store's: a read
+      -- refreshes the time, and the time is persisted with the next cache write (the shutdown's at
+      -- the latest), or the expiry rule does not hold across a restart.
+      let effective : Option Doc := if get "writes" == "-" then s.cache else parseDoc (get "writes")
+      let stamps := fun (d : Doc) => d.toList.map fun (n, _, la) => (n, la)
+      let lostStamps := s.hasCache && !st.wfail && (match effective with
+        | some d => stamps d != stamps (docOf s.m)
+        | none => !(docOf s.m).isEmpty)
       let outs := (if s.hasCache && get "writes" == "-" then [s!"PROPFAIL C13 flush_at_shutdown {tag}"] else []) ++
+                  (if lostStamps then [s!"PROPFAIL C19 access_time_persisted {tag} after Close the cache holds {(effective.map showDoc).getD "nothing"} but the store's secrets and access times are {want.take 300}"] else []) ++
                   (if get "writes" == want then [] else [s!"DIVERGE close_flush {tag} code={(get "writes").take 200} model={want.take 200}"]) ++
                   cmpState s "close_state"
       .ok (mkOut st (some s) st.served "close" outs)
